@@ -500,7 +500,7 @@ func (am *ACMEIssuer) doIssue(ctx context.Context, csr *x509.CertificateRequest,
 				// we could use the same key pair, but this is a good opportunity to rotate keys
 				// (see https://caddy.community/t/acme-account-is-not-regenerated-when-acme-server-gets-reinstalled/22627)
 				// (basically this happens if the CA gets reset or reinstalled; usually just internal PKI)
-				err := am.deleteAccountLocally(ctx, client.iss.CA, client.account)
+				err := am.deleteAccountLocally(ctx, client.acmeClient.Directory, client.account)
 				if err != nil {
 					return nil, usingTestCA, fmt.Errorf("%v ACME account no longer exists on CA, but resetting our local copy of the account info failed: %v", nameSet, err)
 				}
